@@ -246,7 +246,7 @@ class Sim:
     def pts(ps) -> str:
         return ','.join(f'{a}.{b}' for a, b in sorted((p[0], p[1]) for p in ps))
 
-    def views(self, c) -> str:
+    def views(self, c, probe: bool = False) -> str:
         it = list(c.operations_with_cycles())
         n = c.num_qudits
         grid = self.grid(c)
@@ -289,7 +289,7 @@ class Sim:
             f'blocks={nblocks}',
             f'inv={inv}',
         ]
-        if self.prng.random() < self.probe_p:
+        if probe and self.prng.random() < self.probe_p:
             pb = self.probes(c, grid)
             parts.append('probes=' + (','.join(sorted(set(pb))) or 'ok'))
         return ' '.join(parts)
@@ -298,7 +298,7 @@ class Sim:
     def record(self, line: str, ret: str, c, call: str):
         try:
             ct = self.circ_text(c)
-            vs = self.views(c)
+            vs = self.views(c, probe=True)
         except Exception as e:   # a view itself fails: internal error
             self.internal_error = (call, 'view: ' + repr(e) + '\n'
                                    + traceback.format_exc()[-1500:])
